@@ -3585,7 +3585,10 @@ class QuerySetMonad(SetMixin, Monad):
                     having_ast += in_conditions
                 else: where_ast += in_conditions
                 sql_ast = [ 'NOT_EXISTS' if not_in else 'EXISTS' ] + subquery_ast[2:]
-        return BoolExprMonad(sql_ast, nullable=False)
+        result = BoolExprMonad(sql_ast, nullable=False)
+        if not not_in:  # `not (x in subquery)` should be translated as `x not in subquery`, with IS NOT NULL checks
+            result.negate = lambda: monad.contains(item, not_in=True)
+        return result
     def nonzero(monad):
         subquery_ast = monad.subtranslator.construct_subquery_ast(distinct=False)
         expr_monads = monad.subtranslator.expr_monads
